@@ -17,6 +17,8 @@ def gen_c13(rnd, n, thorough=False):
             kind = 'gensession'
         if c == 5:
             kind = 'rawduring'
+        if c == 6:
+            kind = 'abortheld'
         lines = []
         if kind == 'failed_open':
             # every way Open can fail after the descriptor was obtained (and a control that succeeds)
@@ -75,6 +77,11 @@ def gen_c13(rnd, n, thorough=False):
             lines.append("clicopy src=s:a.wsp dest=d:a.wsp from=0 until=0 archive=-1 copynan=0 m=2 x=3f000000 layout=%s remote=1 intruder=@-3:%016x,@-5:%016x watch=@-3" % (
                 lay_csv(layout), fbits(100.0), fbits(200.0)))
             observe_all(lines, 'd/a.wsp', layout)
+            tags = {'kind': kind}
+        elif kind == 'abortheld':
+            # a request for a held file whose client goes away: afterwards the file is free again
+            wl = waitopen_lines(rnd)
+            lines += wl[:-1] + ["abortheld w", "lockblock w"]
             tags = {'kind': kind}
         elif kind == 'rawduring':
             # a raw view started in the middle of a writer's session shows a session boundary
